@@ -9,7 +9,8 @@
 //           types, partial body lengths 2^k (k = 0..16, thorough ..22) on data and non-data tags, truncations.
 //   mpi   : PacketMPIEncode/Decode for 0, 1, 2^k-1, 2^k, 2^k+1 (k <= 70 and 255,256,2047,2048; thorough k <= 300 ...), inflated
 //           bit counts / leading zero octets on decode, checksum accumulation; PacketStringEncode/Decode; scalars.
-//   s2k   : S2KCompute salted + iterated for every hash the library maps; SHA-256 with ALL 256 count octets; KDFCompute (RFC 6637).
+//   s2k   : S2KCompute salted + iterated for every hash the library maps; SHA-256 with ALL 256 count octets; salt+passphrase
+//           lengths straddling the decoded count (count-1, count, count+1, 2*count) for small count octets; KDFCompute (RFC 6637).
 //   fpr   : FingerprintCompute/V5, KeyidCompute/V5 over synthetic bodies of all lengths 0..300 and boundary lengths.
 // Oracle: byte-for-byte agreement with the Python reference ({"t":"ref"} lines), decode(encode(x)) = x checked here.
 #include "c19_pgp.hh"
@@ -610,6 +611,7 @@ static void s2k_case(int algo, size_t sklen, size_t plen, bool iterated, unsigne
 	fill_seeded(pw, plen, algo * 1000 + plen);
 	fill_seeded(salt, 8, c * 31 + sklen);
 	tmcg_openpgp_secure_string_t in;
+	in.reserve(pw.size());   // secure strings hold at most 8191 characters (TMCG_SecureAlloc::max_size)
 	for (size_t i = 0; i < pw.size(); i++)
 		in += (char)(pw[i] ? pw[i] : 1);   // secure string: keep clear of embedded NULs to stay a faithful passphrase
 	for (size_t i = 0; i < pw.size(); i++)
@@ -671,6 +673,35 @@ static void fam_s2k()
 					s2k_case(algo, 16, 1, true, c, cid);
 			}
 	}
+	// salt+passphrase straddling the decoded octet count (RFC 4880 3.7.1.3: the whole salt+passphrase is hashed at least
+	// once even when it is longer than the count): |salt+passphrase| = count-1, count, count+1, 2*count for small count octets
+	{
+		static const unsigned scs[] = { 0, 1, 2, 15, 16, 17, 31, 32 };
+		for (size_t hi = 0; hi < sizeof(HASHIDS) / sizeof(HASHIDS[0]); hi++)
+			for (size_t ci = 0; ci < 8; ci++)
+			{
+				int algo = HASHIDS[hi];
+				unsigned c = scs[ci];
+				std::string cid = "s2k:straddle:h=" + str(algo) + ":c=" + str(c);
+				if (!R->mine() || !R->selected(cid))
+					continue;
+				size_t count = ((size_t)16 + (c & 15)) << ((c >> 4) + 6);
+				size_t pls[] = { count - 9, count - 8, count - 7, 2 * count - 8, 2 * count + 5 };
+				for (int pi = 0; pi < 5; pi++)
+				{
+					if (pls[pi] > 8190)
+						pls[pi] = count + count / 2 + pi;   // longest passphrase a secure string can hold is 8191
+					s2k_case(algo, 16, pls[pi], true, c, cid);
+					if (algo == 8)
+					{
+						s2k_case(algo, 32, pls[pi], true, c, cid);
+						s2k_case(algo, 33, pls[pi], true, c, cid);
+						s2k_case(algo, 64, pls[pi], true, c, cid);
+					}
+					s2k_case(algo, 16, pls[pi], false, c, cid);   // salted (not iterated) with the same long passphrases
+				}
+			}
+	}
 	// RFC 6637 KDF
 	static const char *curves[] = { "NIST P-256", "NIST P-384", "NIST P-521", "brainpoolP256r1", "brainpoolP512r1", "Ed25519", "Curve25519" };
 	for (int ci = 0; ci < 7; ci++)
@@ -693,7 +724,7 @@ static void fam_s2k()
 						R->ok(true);
 					}
 	}
-	R->bound = std::string("SHA-256: all 256 count octets; other hashes: counts {0,1,15,16,96,255}") + (TH ? " + 208 further count octets" : "") + "; key lengths 16,24,32,33,64; passphrase lengths 0,1,64,65";
+	R->bound = std::string("SHA-256: all 256 count octets; other hashes: counts {0,1,15,16,96,255}") + (TH ? " + 208 further count octets" : "") + "; key lengths 16,24,32,33,64; passphrase lengths 0,1,64,65; salt+passphrase = count-1,count,count+1,2*count,2*count+13 for count octets 0,1,2,15,16,17,31,32 (every hash)";
 }
 
 // ------------------------------------------------------------------------------------------------ fingerprints
@@ -742,7 +773,7 @@ int main(int argc, char **argv)
 	std::string family = A.get("family", "radix");
 	if (!A.only.empty())
 		family = A.only.substr(0, A.only.find(':'));
-	if (!init_libTMCG(true))
+	if (!init_libTMCG(true, false, 1 << 20))   // 1 MiB secure pool: the s2k family hashes passphrases of up to 8 KiB held in secure memory
 	{
 		fprintf(stderr, "init_libTMCG failed\n");
 		return 2;
